@@ -57,6 +57,10 @@ def hypBase (s : RawSym) : List (String × Bool) :=
   [("theorem-hypothesis-holds:ValidTables-of-the-input-symbol",
       match s.toSym with
       | .ok y => validTablesB y && decide (1 ≤ y.size) && decide (1 ≤ y.dim)
+      | _ => false),
+   ("theorem-hypothesis-holds:ValidSym-of-the-input-symbol",
+      match s.toSym with
+      | .ok y => validSymB y
       | _ => false)]
 
 def hypTables (s : RawSym) (gd : GroupData) : List (String × Bool) :=
